@@ -12,13 +12,14 @@ RULE = ('pages with 0-14 regions with unique ids: grids, columns, mutually overl
         'zero-height boxes, random polygons, nested; lines horizontal and slanted (non-zero de-skew); both sorters; FakeIntersectionParameter 0-0.5; '
         'ImageWidthDenominator 1-1500. non-trivial = at least 2 regions; distinct = hash of the page description and sorter parameters Lines without ids or with one id per region; one region given by one or two points (no skew). Pages of 1050 / 1200 mutually overlapping regions; region types; layouts without a page size.')
 RULE += ' Round 6: Spiral pages of 40-64 nested regions; long-lived sorters whose first page is a thumbnail; scans of different widths.'
+RULE += ' Round 9: Skewed pages with an int32 outline holding the bytes of another region\'s int64 outline.'
 RULE += ' Round 7: The region and line objects handed in keep their geometry whether or not the page returns them.'
 ASSUMPTIONS = ['regions have unique ids; outlines have at least 3 points, except in the class line_outline (one region given by one or two points, only on pages without skew: on a skewed page the de-skew rotation builds a shapely polygon from every outline, which is impossible for fewer than three points - not a polygon in the sense of the quantifier)', 'the naive sorter is driven with eps >= 1 (DBSCAN rejects eps = 0)',
                'termination is decided as bounded progress: traced line events inside the sorter modules stay below STEP_BUDGET(n); a hang inside a binary dependency would show as the wall-clock watchdog (inconclusive)',
                'geometry tolerance: boundaries within 1e-6 px of each other (Hausdorff distance) and equal area (de-skew rotates there and back in float64); GEOS overlay operations are not used because they are unreliable for nearly coincident polygons']
 N = {'quick': 1500, 'thorough': 60000}
 CLASSES = ['grid', 'columns', 'overlap', 'identical', 'degenerate', 'poly', 'nested', 'empty_or_single', 'overlap_slanted', 'grid_slanted', 'line_outline', 'many_overlapping', 'spiral']
-REQUIRED = ['long_lived_sorter_reused', 'spiral_pages', 'layouts_without_a_page_size', 'pages_of_more_than_1000_regions', 'pages_of_marginalia_only', 'line_ids:none', 'line_ids:repeated', 'pages_with_a_one_or_two_point_outline', 'smart_runs', 'naive_runs', 'deskewed_pages', 'decouple_calls', 'regions_compared']
+REQUIRED = ['pages_with_two_outlines_of_identical_bytes', 'long_lived_sorter_reused', 'spiral_pages', 'layouts_without_a_page_size', 'pages_of_more_than_1000_regions', 'pages_of_marginalia_only', 'line_ids:none', 'line_ids:repeated', 'pages_with_a_one_or_two_point_outline', 'smart_runs', 'naive_runs', 'deskewed_pages', 'decouple_calls', 'regions_compared']
 
 
 def STEP_BUDGET(n):
@@ -139,8 +140,16 @@ def gen(rng, i, ctx):
     order = list(range(n))
     rng.shuffle(order)
     regs = [regs[k] for k in order]
-    return {'cls': cls, 'regions': regs, 'fake_intersection': float(rng.choice([0.0, 0.05, 0.1, 0.3, 0.5])) if cls != 'spiral' else float(rng.choice([0.0, 0.05])),
+    case = {'cls': cls, 'regions': regs, 'fake_intersection': float(rng.choice([0.0, 0.05, 0.1, 0.3, 0.5])) if cls != 'spiral' else float(rng.choice([0.0, 0.05])),
             'width_denominator': int(rng.choice([1, 2, 10, 100, 1500])), 'int_coords': bool(rng.random() < 0.3), 'line_ids': scheme}
+    if slanted and case['int_coords'] and 2 <= len(regs) <= 60 and any(r['lines'] for r in regs):
+        # a region whose int32 outline holds the very bytes of another region's int64 outline (x, 0 pairs: a sliver along the top edge) - a different outline
+        src = regs[0]
+        flat = np.array(src['polygon']).astype(np.int64)
+        twin32 = np.frombuffer(flat.tobytes(), dtype=np.int32).reshape(-1, 2)
+        case['regions'] = list(regs) + [{'id': 'twin_bytes', 'polygon': twin32.tolist(), 'dtype': 'int32', 'text': '', 'lines': [], 'type': src.get('type')}]
+        case['byte_twin_of'] = src['id']
+    return case
 
 
 def describe(case):
@@ -152,7 +161,7 @@ def build(L, case):
     pl = L.PageLayout(id='p', page_size=(2000, 1500)) if len(case['regions']) % 4 else (L.PageLayout(id='p') if len(case['regions']) % 8 else L.PageLayout(id='p', page_size=(3, 2)))
     dt = np.int64 if case['int_coords'] else np.float64
     for r in case['regions']:
-        reg = L.RegionLayout(r['id'], np.array(r['polygon']).astype(dt), region_type=r.get('type'))
+        reg = L.RegionLayout(r['id'], np.array(r['polygon']).astype(np.int32 if r.get('dtype') == 'int32' else dt), region_type=r.get('type'))
         reg.transcription = r['text']
         for l in r['lines']:
             reg.lines.append(L.TextLine(id=l['id'], baseline=np.array(l['baseline'], dtype=np.float64), polygon=np.array(l['polygon'], dtype=np.float64),
@@ -208,6 +217,8 @@ def check(case, mon, ctx):
     n = len(case['regions'])
     if n >= 2:
         mon.mark_nontrivial()
+    if case.get('byte_twin_of'):
+        mon.count('pages_with_two_outlines_of_identical_bytes')
     for name in ('smart', 'naive'):
         pl = build(L, case)
         before = {r.id: (r, r.transcription, [(l, l.id, l.transcription, np.array(l.baseline, copy=True), np.array(l.polygon, copy=True)) for l in r.lines],
